@@ -114,6 +114,21 @@ def install(E):
         return None
     I[ZV + "AdvanceNow"] = v_advnow
 
+    I[ZV + "Native"] = lambda E, name, args, ins: FALSE
+
+    def v_mapextra(E, name, args, ins):
+        (c, tid, p), = [a for a in args[0].alts if a[1] is not None]
+        t = p.single()
+        E.ghost[("maplen_extra", t.obj)] = args[1]
+        return None
+    I[ZV + "MapExtraLen"] = v_mapextra
+
+    def v_mutexheld(E, name, args, ins):
+        (c, tid, p), = [a for a in args[0].alts if a[1] is not None]
+        t = p.single()
+        return E.mutexes.get((t.obj, t.path), FALSE)
+    I[ZV + "MutexHeld"] = v_mutexheld
+
     def v_string(E, name, args, ins):
         nm = E.input_name(args[0].py)
         t = z3.Const(nm, StrSort)
@@ -139,7 +154,7 @@ def install(E):
 
     def v_panics(E, name, args, ins):
         from .engine import PanicScope
-        sc = PanicScope()
+        sc = PanicScope(len(E.frames))
         E.panic_scopes.append(sc)
         g0 = E.guard
         try:
@@ -418,6 +433,9 @@ def install(E):
         # sortedness by the real comparator on adjacent pairs
         for i in range(n - 1):
             E.assume(less_or_cmp(new[i], new[i + 1]), "sort contract: adjacent pairs ordered")
+            # for counterexample search only: prefer inputs without ties (the real sort orders ties in a
+            # way the contract leaves open, so a counterexample with ties may not replay)
+            E.ghost.setdefault("tiebreak", []).append(Or(Not(E.guard), Not(less_or_cmp(new[i + 1], new[i]))))
         E.ghost.setdefault("sorts", []).append((tag, n))
 
     def slices_sort(E, name, args, ins):
